@@ -361,6 +361,9 @@ func (ex *Exec) finishRoot(fr *Frame, pre *State) {
 	// verdicts of the primitives called by this function
 	vars["sig_ok"], vars["aead_ok"], vars["ctcmp_ok"] = boolVal("false"), boolVal("false"), boolVal("false")
 	vars["fs_written"] = Val{T: types.Typ[types.UnsafePointer], L: []string{"(- 2)"}}
+	for i := 1; i <= 4; i++ {
+		vars[fmt.Sprintf("ctcmp_ok_%d", i)] = boolVal("false") // the i-th constant-time comparison of this run (false if not executed)
+	}
 	for k, v := range ex.ghostVars {
 		vars[k] = v
 	}
@@ -390,12 +393,19 @@ func (ex *Exec) finishRoot(fr *Frame, pre *State) {
 	}
 	if !ct.NoInv {
 		seen := map[string]bool{}
+		okCond := "true"
+		if ct.ErrBreaks && len(results) > 0 {
+			last := results[len(results)-1]
+			if len(last.L) == 2 && types.Identical(last.T, errType()) {
+				okCond = eq(last.L[0], "0")
+			}
+		}
 		chk := func(v Val, what string) {
 			if len(v.L) == 0 || seen[v.L[len(v.L)-1]+typeKey(v.T)] {
 				return
 			}
 			seen[v.L[len(v.L)-1]+typeKey(v.T)] = true
-			ex.checkTypeInv(fr, st, v, what, fn.Pos())
+			ex.checkTypeInvUnder(fr, st, v, what, fn.Pos(), okCond)
 		}
 		for _, p := range fn.Params {
 			chk(fr.vals[p], "@"+p.Name())
@@ -417,7 +427,7 @@ func (ex *Exec) finishRoot(fr *Frame, pre *State) {
 				continue
 			}
 			seen[k] = true
-			ex.checkTypeInvUnder(fr, st, Val{T: types.NewPointer(sr.T), L: []string{sr.Ref}}, "@written", fn.Pos(), sr.PC)
+			ex.checkTypeInvUnder(fr, st, Val{T: types.NewPointer(sr.T), L: []string{sr.Ref}}, "@written", fn.Pos(), and(sr.PC, okCond))
 		}
 	}
 }
@@ -834,7 +844,7 @@ func (ex *Exec) applyContract(fr *Frame, st *State, fn *ssa.Function, ct *FuncCo
 		}
 	}
 	// verdicts of primitives inside the callee are not visible to the caller
-	for _, g := range []string{"sig_ok", "aead_ok", "ctcmp_ok"} {
+	for _, g := range []string{"sig_ok", "aead_ok", "ctcmp_ok", "ctcmp_ok_1", "ctcmp_ok_2", "ctcmp_ok_3", "ctcmp_ok_4"} {
 		vars[g] = boolVal(ex.fresh("callee."+g, sBool))
 	}
 	calleeFr := &Frame{fn: fn, vals: map[ssa.Value]Val{}, regs: map[*ssa.Alloc]bool{}, parent: fr, path: fr.path}
@@ -947,11 +957,20 @@ func (ex *Exec) applyContract(fr *Frame, st *State, fn *ssa.Function, ct *FuncCo
 		for k := 0; k < nres; k++ {
 			ex.assumeTypeInv(fr, st, vars[fmt.Sprintf("result%d", k)])
 		}
+		okCond := "true"
+		if ct.ErrBreaks && nres > 0 {
+			last := vars[fmt.Sprintf("result%d", nres-1)]
+			if len(last.L) == 2 && types.Identical(last.T, errType()) {
+				okCond = eq(last.L[0], "0")
+			}
+		}
 		for i, p := range fn.Params {
 			if i < len(args) {
 				v := args[i]
 				v.T = p.Type()
-				ex.assumeTypeInv(fr, st, v)
+				if t, _ := ex.typeInvTerm(fr, st, v); t != "" && t != "true" {
+					ex.assume(st.pc, implies(okCond, t))
+				}
 			}
 		}
 	}
@@ -961,6 +980,10 @@ func (ex *Exec) applyContract(fr *Frame, st *State, fn *ssa.Function, ct *FuncCo
 		en.pkg = fn.Pkg.Pkg
 		t, err := en.evalBool(c.E)
 		if err != nil {
+			if strings.Contains(err.Error(), "unknown name") {
+				// the clause talks about the callee's local variables: it is proved in the callee and not visible to callers
+				continue
+			}
 			ex.errors = append(ex.errors, fmt.Sprintf("%s: ensures %s at call in %s: %v", c.Line, c.Label, ex.rootKey, err))
 			continue
 		}
@@ -1515,7 +1538,7 @@ func solveOne(ex *Exec, o *Obligation, cfg *solveCfg) {
 		queryMu.Unlock()
 		pfile := base + ".pruned.smt2"
 		_ = writeFileMkdir(pfile, []byte(ptxt))
-		pr, pall := raceSolvers(pfile, "", cfg.first, "z3-5")
+		pr, pall := raceSolvers(pfile, "", cfg.first, "z3")
 		all = append(all, pall...)
 		if pr.Status == "unsat" {
 			cfg.stats.add(all, pr)
